@@ -310,6 +310,11 @@ def run(tier, seed):
     run.sample(traces[1])
     run.sample(traces[-1])
     run.extra["experiments"] = len(traces)
+    if not rejected and not tr.violated:
+        def corrupt(t):
+            e = next(e for e in t["events"] if e["e"] in ("crash", "finish"))
+            e["disk"] = e["disk"][:-1] if e["disk"] else [1]
+        common.assert_binding_live(run, "TraceFeatDir", "TraceFeatDir.cfg", traces[1], corrupt, "one manifest line removed from an on-disk observation")
     run.extra["rule"] = "every (hook point, utterance index, kill kind) single crash for %d utterances, sampled double%s crashes, 0 and 2 workers; each followed by a clean resume" % (n, "/triple" if tier == "thorough" else "")
     run.assumptions += ["SIGKILL at a hook point stands for a kill anywhere between the surrounding statements; 'mid' emulates a kill inside torch.save by writing half the serialised bytes",
                         "os._exit in the child after a soft interrupt: the manifest object is closed (flushed) by the tool's own frames unwinding"]
